@@ -2921,6 +2921,142 @@ def run_literal_radix(prop, tier, seed):
     return ev
 
 
+# ---------------------------------------------------------------------------------------------
+# end delimiters (C10): where the tokenizer advances by the length of a delimiter, that delimiter is the one it has
+# just matched at the cursor (a must-fact M_D "starts_with(D()) was true and nothing was consumed since")
+# ---------------------------------------------------------------------------------------------
+DELIMS = ('block_start', 'block_end', 'variable_start', 'variable_end', 'comment_start', 'comment_end')
+
+
+def check_advance_matches_delimiter(mir, fname='tokenize_block_or_var'):
+    text = function_text(mir, r'^fn lexer::<impl [^>]*>::%s\(' % fname)
+    if text is None:
+        return dict(function='Tokenizer::' + fname, verdict='unknown', conflict='%s not found in the MIR' % fname)
+    fn = parse_function(text)
+    blocks = {b: blk for b, blk in fn['blocks'].items() if not blk['cleanup']}
+    adj, preds = cfg(fn)
+    defs = {}
+    for blk in blocks.values():
+        for st in blk['stmts']:
+            m = re.match(r'(_\d+) = (.*);$', st)
+            if m:
+                defs.setdefault(m.group(1), []).append(m.group(2))
+    delim_of = {}          # local holding the &str of a delimiter -> its name
+    len_of = {}            # local holding len(delimiter) (+ const) -> name
+    matched = {}           # bool local: result of starts_with(.., D) -> name
+    for blk in blocks.values():
+        dst, callee = call_of(blk['term'])
+        if not callee or not dst:
+            continue
+        m = re.match(r'lexer::Tokenizer::<[^>]*>::(\w+)\(', callee)
+        if m and m.group(1) in DELIMS:
+            delim_of[dst] = m.group(1)
+    for blk in blocks.values():
+        dst, callee = call_of(blk['term'])
+        if not callee or not dst:
+            continue
+        args = re.findall(r'(?:move|copy) (_\d+)', callee[callee.find('('):])
+        if re.match(r'core::str::<impl str>::len\(', callee) and args and args[0] in delim_of:
+            len_of[dst] = delim_of[args[0]]
+        if re.match(r'core::str::<impl str>::starts_with::<', callee) and len(args) == 2 and args[1] in delim_of:
+            matched[dst] = delim_of[args[1]]
+    changed = True
+    while changed:
+        changed = False
+        for loc, ds in defs.items():
+            if len(ds) != 1 or loc in len_of:
+                continue
+            m = re.match(r'Add\((?:move|copy) (_\d+), const \d+_usize\)$', ds[0]) or re.match(r'(?:move|copy) (_\d+)$', ds[0])
+            if m and m.group(1) in len_of:
+                len_of[loc] = len_of[m.group(1)]
+                changed = True
+    names = sorted(set(matched.values()) | set(len_of.values()))
+    s_ = z3.Solver()
+    s_.set('timeout', 30000)
+    Mv = {(d, b): z3.Bool('M_%s_%s' % (d, b)) for d in names for b in blocks}
+    for d in names:
+        s_.add(z3.Not(Mv[(d, 'bb0')]))
+    sites = []
+    for b, blk in blocks.items():
+        dst, callee = call_of(blk['term'])
+        is_adv = bool(callee and re.match(r'lexer::Tokenizer::<[^>]*>::advance\(', callee))
+        sw = re.match(r'switchInt\((?:move|copy) (_\d+)\) -> \[(.*)\];', blk['term'])
+        if is_adv:
+            args = re.findall(r'(?:move|copy) (_\d+)', callee[callee.find('('):])
+            if len(args) == 2 and args[1] in len_of:
+                d = len_of[args[1]]
+                s_.add(Mv[(d, b)])
+                sites.append(dict(block=b, advances_by='len(%s)' % d))
+        for label, tgt in adj[b]:
+            if tgt not in blocks:
+                continue
+            for d in names:
+                sets = False
+                if sw and sw.group(1) in matched and matched[sw.group(1)] == d:
+                    tg = dict(x.split(': ') for x in sw.group(2).split(', '))
+                    true_t = tg.get('1', tg.get('otherwise'))
+                    sets = tgt == true_t and tg.get('0') != tgt
+                if sets:
+                    continue
+                if is_adv:
+                    s_.add(z3.Not(Mv[(d, tgt)]))       # the cursor moved: an earlier match says nothing any more
+                else:
+                    s_.add(z3.Implies(Mv[(d, tgt)], Mv[(d, b)]))
+    t0 = time.time()
+    r = s_.check()
+    res = dict(function='Tokenizer::' + fname, delimiter_advances=sites, matches=len(matched), z3_s=round(time.time() - t0, 3))
+    if not sites:
+        res.update(verdict='unknown', conflict='no advance by a delimiter length found in %s' % fname)
+    elif r == z3.sat:
+        res.update(verdict='sat')
+    elif r == z3.unsat:
+        res.update(verdict='unsat', conflict='%s advances by the length of a delimiter other than the one it has just matched at the cursor' % fname)
+    else:
+        res.update(verdict=str(r))
+    return res
+
+
+def run_delimiters(prop, tier, seed):
+    t0 = time.time()
+    ev = dict(engine='M', violations=[], known_hits=[], problems=[], coverage={})
+    try:
+        mir = dump_mir(REPO, os.path.join(BUILD, 'mir'))
+    except MirError as e:
+        ev['problems'].append('engine M: %s' % e)
+        return ev
+    res = check_advance_matches_delimiter(mir)
+    err = build_tool('render')
+    if err:
+        ev['problems'].append('engine M: render tool did not build')
+        return ev
+    # delimiters of pairwise different lengths; every end delimiter with and without a whitespace-control sign
+    syn = dict(block=['<%%', '%%>'], variable=['${', '}'], comment=['<#--', '#>'])
+    cases = [('A${ x }B', 'A1B'), ('A${ x -}  B', 'A1B'), ('A${ x +}  B', 'A1  B'), ('A<%% if x %%>T<%% endif %%>B', 'ATB'),
+             ('A<%% if x -%%>  T<%% endif +%%>  B', 'AT  B'), ('A  <%%- if x %%>T<%%- endif %%>B', 'ATB'), ('A<#-- c #>B${ x }', 'AB1'),
+             ('${ x -}<%% if x -%%> ${ x }<%% endif %%>', '11')]
+    reqs = [dict(src=s_, ctx=dict(x=1), syntax=syn) for s_, _ in cases]
+    inp = '\n'.join(json.dumps(q) for q in reqs) + '\n'
+    p = subprocess.run([os.path.join(BUILD, 'native', 'debug', 'render')], input=inp, stdout=subprocess.PIPE, stderr=subprocess.PIPE, text=True, timeout=120)
+    outs = [json.loads(l) for l in p.stdout.split('\n') if l.strip()]
+    bad = ['%s renders %r, expected %r' % (c[0], o.get('ok', o), c[1]) for c, o in zip(cases, outs) if o.get('ok') != c[1]]
+    if res['verdict'] == 'unsat':
+        if bad:
+            rp = os.path.join(nativelib.replay_dir(), '%s-M-delimiters.json' % prop)
+            json.dump(dict(engine='M', kind='safesrc', property=prop, mir_finding=res, requests=[[q, c[1]] for q, c in zip(reqs, cases)],
+                           how='bin/check %s --replay %s' % (prop, rp)), open(rp, 'w'), indent=1)
+            ev['violations'].append(dict(replay=rp, failed=[dict(desc='%s; natively (block <%%%% %%%%>, variable ${ }): %s' % (res['conflict'], bad[0][:200]), loc='minijinja/src/compiler/lexer.rs (MIR)')]))
+        else:
+            ev['problems'].append('engine M: %s, but every template of the custom-delimiter grid renders as specified' % res['conflict'])
+    elif res['verdict'] != 'sat':
+        ev['problems'].append('engine M: delimiters: %s %s' % (res['verdict'], res.get('conflict') or ''))
+    elif bad:
+        ev['problems'].append('engine M: custom delimiters: %s although every advance matches the delimiter found' % bad[0][:200])
+    log('[%s] engine M (end delimiters): %s (%d advances by a delimiter length); native: %d templates, %d wrong' % (prop, res['verdict'], len(res.get('delimiter_advances', [])), len(outs), len(bad)))
+    ev['coverage'] = dict(queries=1, results=[res], native_scenarios=len(outs), native_scenarios_failing=len(bad), check='advance_matches_delimiter')
+    ev['wall_s'] = round(time.time() - t0, 1)
+    return ev
+
+
 def run_pool_buffers(prop, tier, seed):
     t0 = time.time()
     ev = dict(engine='M', violations=[], known_hits=[], problems=[], coverage={})
